@@ -43,7 +43,7 @@ def check(run, repo):
     run.undecided = ['atom conservation, optimality and order independence of the returned composition as numeric '
                      'facts (SLSQP)', 'reaction equilibrium within solver tolerance']
     ci = repo.cls(EQ)
-    for m_ in ('get_net_comp', '_objective', '_objective_jac', '_constraints1_eq', '_constraints1_eq_jac', '__init__'):
+    for m_ in ('get_net_comp', '__init__'):
         run.fn(EQ + '.' + m_)
     owner, fn = repo.find_method(ci, 'get_net_comp')
     for ns, ne in ((2, 1), (3, 2), (4, 3)):
@@ -114,14 +114,14 @@ def check(run, repo):
             want = C(0)
             for xi, gi in zip(xs.items, g):
                 want = want + xi * (gi + D.ln(xi * p / nT))
-            o1, f1 = repo.find_method(ci, '_objective')
-            run.check(isinstance(val, Rat) and val.eq(want), 'REF.objective', 'Equilibrium._objective', label,
+            o1, f1 = (fun.owner or owner), fun.fn      # whatever the solver was handed
+            run.check(isinstance(val, Rat) and val.eq(want), 'REF.objective', 'Equilibrium.' + f1.name, label,
                       'objective is %s, expected sum x_i (g_i + ln(x_i p / n)) with g_i = G_i/RT of species i at T'
                       % show(val, 200), o1.module, f1, sample='[%s] objective == sum x_i(g_i + ln(x_i p/n))' % label)
-            o2, f2 = repo.find_method(ci, '_objective_jac')
+            o2, f2 = (jac.owner or owner), jac.fn
             okj = isinstance(val, Rat) and isinstance(grad, ListV) and len(grad) == ns and \
                 all(isinstance(gr, Rat) and gr.eq(D.d(val, 'x%d' % i)) for i, gr in enumerate(grad.items))
-            run.check(okj, 'DERIV.objective-jac', 'Equilibrium._objective_jac', label,
+            run.check(okj, 'DERIV.objective-jac', 'Equilibrium.' + f2.name, label,
                       'the Jacobian handed to the solver is not the gradient of the objective: %s' % show(grad, 200),
                       o2.module, f2, sample='[%s] jac_i == d objective / d x_i' % label)
             # pressure handed over: P in atm converted to bar
@@ -138,8 +138,8 @@ def check(run, repo):
                     wantc = [sum((xs.items[i] * M.items[i].items[j] for i in range(1, ns)),
                                  xs.items[0] * M.items[0].items[j]) - F.items[j] for j in range(ne)]
                     okc = isinstance(cv, ListV) and len(cv) == ne and all(same(a, b) for a, b in zip(cv.items, wantc))
-                    o3, f3 = repo.find_method(ci, '_constraints1_eq')
-                    run.check(okc, 'REF.constraint', 'Equilibrium._constraints1_eq', label,
+                    o3, f3 = (cd.d['fun'].owner or owner), cd.d['fun'].fn
+                    run.check(okc, 'REF.constraint', 'Equilibrium.' + f3.name, label,
                               'the equality constraint is %s, expected x.M - (element totals of the feed)' % show(cv, 160),
                               o3.module, f3)
                     jv = fr_.apply(cd.d['jac'], [xs], {}, None) if isinstance(cd.d.get('jac'), FuncRef) else None
@@ -147,8 +147,9 @@ def check(run, repo):
                         isinstance(jv.items[j], ListV) and len(jv.items[j]) == ns and
                         all(same(jv.items[j].items[i], D.d(cv.items[j], 'x%d' % i)) for i in range(ns))
                         for j in range(ne))
-                    o4, f4 = repo.find_method(ci, '_constraints1_eq_jac')
-                    run.check(okjj, 'DERIV.constraint-jac', 'Equilibrium._constraints1_eq_jac', label,
+                    o4, f4 = ((cd.d['jac'].owner or owner), cd.d['jac'].fn) if isinstance(cd.d.get('jac'), FuncRef) \
+                        else (owner, fn)
+                    run.check(okjj, 'DERIV.constraint-jac', 'Equilibrium.' + f4.name, label,
                               'the constraint Jacobian is not the derivative of the constraint (M transposed): %s'
                               % show(jv, 160), o4.module, f4)
             run.check(okc, 'DATAFLOW.solver-args', 'Equilibrium.get_net_comp', label + ' constraint',
